@@ -117,6 +117,9 @@ def plan_seq(pid, tier, seed, ncpu):
         for (p, s) in profiles:
             n = max(1, (ncpu * s) // shares)
             js += seq_jobs(bindirs["dbg"], workdir, known, pid, p, total * s // shares, ops, seed, n)
+        if pid in ("C05", "C06"):
+            # more expired entries pending than one maintenance batch (100 / 500) purges
+            js += seq_jobs(bindirs["dbg"], workdir, known, pid, "bulk", scale(tier, 240, 6000), 1300, seed, 4, prefix="bulk")
         # concurrent clauses
         if pid in ("C03", "C07", "C10"):
             js += con_jobs(bindirs["dbg"], workdir, known, pid, "baton", seed, 4, programs=scale(tier, 1600, 40000), schedules=scale(tier, 10, 20))
